@@ -942,10 +942,11 @@ class MCPRegression(LinearModel, RegressorMixin):
         if self.weights is None:
             penalty = MCPenalty(self.alpha, self.gamma, self.positive)
         else:
-            if X.shape[1] != len(self.weights):
+            n_features = np.shape(X)[1]  # X may be a list of lists at this point
+            if n_features != len(self.weights):
                 raise ValueError(
                     "The number of weights must match the number of features. "
-                    f"Got {len(self.weights)}, expected {X.shape[1]}."
+                    f"Got {len(self.weights)}, expected {n_features}."
                 )
             penalty = WeightedMCPenalty(
                 self.alpha, self.gamma, self.weights, self.positive)
@@ -1649,14 +1650,15 @@ class GroupLasso(LinearModel, RegressorMixin):
         self : Instance of GroupLasso
             Fitted estimator.
         """
-        grp_indices, grp_ptr = grp_converter(self.groups, X.shape[1])
+        n_features_X = np.shape(X)[1]  # X may be a list of lists at this point
+        grp_indices, grp_ptr = grp_converter(self.groups, n_features_X)
         group_sizes = np.diff(grp_ptr)
 
         n_features = np.sum(group_sizes)
-        if X.shape[1] != n_features:
+        if n_features_X != n_features:
             raise ValueError(
                 "The total number of group members must equal the number of features. "
-                f"Got {n_features}, expected {X.shape[1]}.")
+                f"Got {n_features}, expected {n_features_X}.")
 
         weights = np.ones(len(group_sizes)) if self.weights is None else self.weights
         group_penalty = WeightedGroupL2(alpha=self.alpha, grp_ptr=grp_ptr,
